@@ -2090,7 +2090,13 @@ def _defaultdict(it, args, kw):
 
 EXTERNAL['collections.defaultdict'] = Builtin('collections.defaultdict', _defaultdict)
 EXTERNAL['collections.OrderedDict'] = Builtin('collections.OrderedDict', b_dict)
-EXTERNAL['datetime.datetime.utcnow'] = Builtin('utcnow', lambda it, args, kw: it.run.fresh('utcnow', z3.IntSort()))
+def _utcnow(it, args, kw):
+    t = it.run.fresh('utcnow', z3.IntSort())
+    it.run.now_terms = getattr(it.run, 'now_terms', []) + [t]
+    return t
+
+
+EXTERNAL['datetime.datetime.utcnow'] = Builtin('utcnow', _utcnow)
 EXTERNAL['datetime.datetime.now'] = Builtin('now', lambda it, args, kw: it.run.fresh('now', z3.IntSort()))
 EXTERNAL['time.sleep'] = Builtin('sleep', _noop)
 EXTERNAL['time.time'] = Builtin('time', lambda it, args, kw: it.run.fresh('time', xreal.XReal))
